@@ -60,7 +60,12 @@ def body(draw, depth, in_class=False, min_size=0, max_size=5):
             kinds += ["import"]
         k = draw(st.sampled_from(kinds))
         if k == "import":
-            stmts.append({"k": "import", "src": draw(st.sampled_from(IMPORTS))})
+            if draw(st.integers(0, 2)) == 0:
+                # the imported (not the bound) name is spelt like something this module may define itself
+                nm = draw(st.sampled_from(NAME_POOL))
+                stmts.append({"k": "import", "src": draw(st.sampled_from(("from legacy import %s as _old_%s", "import %s as _mod_%s"))) % (nm, nm)})
+            else:
+                stmts.append({"k": "import", "src": draw(st.sampled_from(IMPORTS))})
             continue
         if k == "class":
             cand = [n for n in cand if n[0].isupper()] or cand
@@ -152,6 +157,8 @@ def render(mod):
     if not lines:
         lines = ["pass"]
     src = "\n".join(lines)
+    if mod.get("trailing_ws"):  # a whitespace-only last line that is not terminated
+        return src + "\n" + mod["trailing_ws"]
     return src + ("\n" if mod.get("trailing_newline", True) else "")
 
 
